@@ -39,7 +39,7 @@ theorem fixer_defaults_pinned :
 
 theorem stock_cfg_pinned :
     FixCfg.strict = ⟨true, "nan".toList, false, "NaT".toList⟩ ∧
-    FixCfg.lenient = ⟨false, "nan".toList, false, "NaT".toList⟩ := by decide
+    FixCfg.lenient = ⟨false, "nan".toList, false, "NaT".toList⟩ := ⟨rfl, rfl⟩
 
 /-! ## 1. declarative vocabulary (written from the property text) -/
 
@@ -59,16 +59,16 @@ def columnCells (rows0 : List Row) (j : Nat) : List Cell := rows0.map (fun r => 
 
 /-- is this raw cell illegal for a column with unit `u` (text: never) -/
 def illegal (ext : Ext) (u : Str) (c : Cell) : Bool :=
-  if u = "text".toList then false
-  else if u = "onoff".toList then (C02.Spec.onoff c).isNone
-  else if u = "datetime".toList then dtIsFix ext c
+  if u = uText then false
+  else if u = uOnoff then (C02.Spec.onoff c).isNone
+  else if u = uDatetime then dtIsFix ext c
   else (floatCell ext c).isNone
 
 def illegalCount (ext : Ext) (u : Str) (cells : List Cell) : Nat := cells.countP (illegal ext u)
 
 /-- the `vtype` the fixer is told for a unit -/
 def vtype (u : Str) : Str :=
-  if u = "onoff".toList then "onoff".toList else if u = "datetime".toList then "datetime".toList else "float".toList
+  if u = uOnoff then "onoff".toList else if u = uDatetime then "datetime".toList else "float".toList
 
 /-- number of names that were already taken by a (repaired) name to their left -/
 def takenCount (seen : List Str) : List Str → List Str → Nat
@@ -119,6 +119,9 @@ def bump (f : Fixer) (e w : Nat) (m : List Msg) : Fixer :=
 
 @[simp] theorem bump_cfg (f : Fixer) (e w : Nat) (m : List Msg) : (bump f e w m).cfg = f.cfg := rfl
 
+theorem replicate_one_add {α} (k : Nat) (x : α) : List.replicate (1 + k) x = x :: List.replicate k x := by
+  rw [Nat.add_comm]; rfl
+
 theorem illegal_eq_bump (f : Fixer) (vt : String) : f.illegal vt = bump f 0 1 [.illegal vt.toList] := by
   cases f; simp [bump, Fixer.illegal]
 
@@ -138,10 +141,7 @@ theorem parseWith_closed {α : Type} (cellFn : Cell → Option α) (rep : FixCfg
     | some b => simp [ih f, List.countP_cons, hc]
     | none =>
       simp only [ih (f.illegal vt), illegal_cfg]
-      simp [illegal_eq_bump, List.countP_cons, hc, List.replicate_succ, Nat.add_comm]
-
-theorem dtValues_cfg_free (ext : Ext) (rep : Str) (cells : List Cell) :
-    True := trivial
+      simp [illegal_eq_bump, List.countP_cons, hc, replicate_one_add, Nat.add_comm]
 
 theorem parseDatetime_closed (ext : Ext) (cells : List Cell) (f : Fixer) :
     parseDatetime ext cells f =
@@ -159,7 +159,7 @@ theorem parseDatetime_closed (ext : Ext) (cells : List Cell) (f : Fixer) :
     | fix =>
       simp only [ih (f.illegal "datetime"), illegal_cfg, bind, Except.bind, Except.map]
       cases dtValues ext f.cfg.repDt cs <;>
-        simp [Except.map, pure, Except.pure, List.countP_cons, dtIsFix, hc, illegal_eq_bump, List.replicate_succ,
+        simp [Except.map, pure, Except.pure, List.countP_cons, dtIsFix, hc, illegal_eq_bump, replicate_one_add,
           Nat.add_comm]
     | raiseValue => rfl
     | raises n => rfl
@@ -171,19 +171,22 @@ theorem parseColumn_closed (ext : Ext) (u : Str) (cells : List Cell) (f : Fixer)
       (C02.Spec.typeColumn ext f.cfg u cells).map (fun v =>
         (v, bump f 0 (Spec.illegalCount ext u cells)
               (List.replicate (Spec.illegalCount ext u cells) (.illegal (Spec.vtype u))))) := by
-  unfold parseColumn C02.Spec.typeColumn Spec.illegalCount Spec.illegal Spec.vtype
-  by_cases h1 : u = "text".toList
+  unfold parseColumn C02.Spec.typeColumn Spec.illegalCount Spec.illegal Spec.vtype parseOnoff parseFloat
+  simp only [parseWith_closed, parseDatetime_closed, type_onoff_cell]
+  unfold uText uOnoff uDatetime
+  generalize "text".toList = T
+  generalize "onoff".toList = O
+  generalize "datetime".toList = D
+  generalize "float".toList = F
+  by_cases h1 : u = T
   · subst h1; simp [Except.map]
-  · simp only [h1, if_false]
-    by_cases h2 : u = "onoff".toList
-    · subst h2
-      simp [Except.map, parseOnoff, parseWith_closed, type_onoff_cell]
-    · simp only [h2, if_false]
-      by_cases h3 : u = "datetime".toList
+  · by_cases h2 : u = O
+    · subst h2; simp [h1, Except.map]
+    · by_cases h3 : u = D
       · subst h3
-        simp only [if_true, parseDatetime_closed, bind, Except.bind, Except.map]
-        cases dtValues ext f.cfg.repDt cells <;> simp [pure, Except.pure]
-      · simp [h3, Except.map, parseFloat, parseWith_closed]
+        simp only [h1, h2, if_true, if_false, bind, Except.bind, Except.map]
+        cases dtValues ext f.cfg.repDt cells <;> simp [pure, Except.pure, h1, h2]
+      · simp [h1, h2, h3, Except.map]
 
 theorem parseColumns_closed (ext : Ext) (us : List Str) (cols : List Row) (f : Fixer) :
     parseColumns ext us cols f =
@@ -202,5 +205,1010 @@ theorem parseColumns_closed (ext : Ext) (us : List Str) (cols : List Row) (f : F
       | ok v =>
         simp only [Except.map, ih, bump_cfg]
         cases Spec.typeColumns ext f.cfg us cs <;> simp [Except.map, pure, Except.pure]
+
+/-! ## 4. closed forms of the two structural repairs -/
+
+/-- names after `_fix_duplicate_column_names`, as a function of the names alone (no fixer state involved) -/
+def renameFrom (seen : List Str) : List Str → List Str
+  | [] => []
+  | n :: ns =>
+    (if seen.contains n then freeName n seen 0 1000 else n) ::
+      renameFrom (seen ++ [if seen.contains n then freeName n seen 0 1000 else n]) ns
+
+/-- the repaired column names of a header -/
+def repairedNames (names0 : List Str) : List Str := renameFrom [] names0
+
+theorem renameFrom_length (seen : List Str) (ns : List Str) : (renameFrom seen ns).length = ns.length := by
+  induction ns generalizing seen with
+  | nil => rfl
+  | cons n ns ih => simp [renameFrom, ih]
+
+theorem foldl_dupStep_closed (names : List Str) (seen : List Str) (f : Fixer) (i : Nat) :
+    (names.zipIdx i).foldl dupStep (seen, f) =
+      (seen ++ renameFrom seen names,
+       bump f (Spec.takenCount seen names (renameFrom seen names)) 0
+              (Spec.takenMsgs seen names (renameFrom seen names) i)) := by
+  induction names generalizing seen f i with
+  | nil => simp [renameFrom, Spec.takenCount, Spec.takenMsgs]
+  | cons n ns ih =>
+    simp only [List.zipIdx_cons, List.foldl_cons, renameFrom, Spec.takenCount, Spec.takenMsgs]
+    by_cases hc : seen.contains n = true
+    · have hm : n ∈ seen := List.contains_iff_mem.1 hc
+      have hd : dupStep (seen, f) (n, i) = (seen ++ [freeName n seen 0 1000], bump f 1 0 [.dup n i]) := by
+        simp [dupStep, hc, hm, bump]
+      rw [hd, ih]
+      simp [hc, hm, Nat.add_comm]
+    · have hm : ¬ n ∈ seen := fun h => hc (List.contains_iff_mem.2 h)
+      have hd : dupStep (seen, f) (n, i) = (seen ++ [n], f) := by
+        simp [dupStep, hc, hm]
+      rw [hd, ih]
+      simp [hc, hm]
+
+/-- **duplicate names**: the repaired names do not depend on the fixer; the fixer grows by one error and one
+    message (name, position) per name that was already taken -/
+theorem fixDuplicates_closed (names : List Str) (f : Fixer) :
+    fixDuplicates names f =
+      (repairedNames names,
+       bump f (Spec.takenCount [] names (repairedNames names)) 0 (Spec.takenMsgs [] names (repairedNames names) 0)) := by
+  have := foldl_dupStep_closed names [] f 0
+  simpa [fixDuplicates, repairedNames] using this
+
+/-- a short row filled up with the filler text -/
+def padRow (n : Nat) (r : Row) : Row :=
+  if r.length < n then r ++ List.replicate (n - r.length) Spec.filler else r
+
+theorem foldl_shortStep_closed (n : Nat) (rows : List Row) (acc : List Row) (f : Fixer) (i : Nat) :
+    (rows.zipIdx i).foldl (shortStep n) (acc, f) =
+      (acc ++ rows.map (padRow n), bump f (Spec.shortCount rows n) 0 (Spec.shortMsgs n rows i)) := by
+  induction rows generalizing acc f i with
+  | nil => simp [Spec.shortCount, Spec.shortMsgs]
+  | cons r rs ih =>
+    simp only [List.zipIdx_cons, List.foldl_cons, Spec.shortCount, Spec.shortMsgs, List.countP_cons, List.map_cons]
+    by_cases hs : r.length < n
+    · have hd : shortStep n (acc, f) (r, i) = (acc ++ [padRow n r], bump f 1 0 [.missingRow i]) := by
+        simp [shortStep, hs, padRow, bump, Spec.filler]
+      rw [hd, ih]
+      simp [Spec.isShort, hs, Spec.shortCount, Nat.add_comm]
+    · have hd : shortStep n (acc, f) (r, i) = (acc ++ [padRow n r], f) := by
+        simp [shortStep, hs, padRow]
+      rw [hd, ih]
+      simp [Spec.isShort, hs, Spec.shortCount]
+
+/-- **short rows**: every short row is filled up to the number of names with the filler text, other rows are
+    untouched; the fixer grows by one error and one message (row index) per short row -/
+theorem fixShortRows_closed (rows : List Row) (n : Nat) (f : Fixer) :
+    fixShortRows rows n f =
+      (rows.map (padRow n), bump f (Spec.shortCount rows n) 0 (Spec.shortMsgs n rows 0)) := by
+  have := foldl_shortStep_closed n rows [] f 0
+  simpa [fixShortRows] using this
+
+theorem getD0_padRow (n : Nat) (r : Row) (j : Nat) (hj : j < n) : getD0 (padRow n r) j = r.getD j Spec.filler := by
+  unfold padRow getD0
+  by_cases hs : r.length < n
+  · simp only [hs, if_true]
+    by_cases hjr : j < r.length
+    · simp [List.getD_eq_getElem?_getD, List.getElem?_append_left hjr, hjr]
+    · have : r.length ≤ j := Nat.le_of_not_lt hjr
+      simp [List.getD_eq_getElem?_getD, List.getElem?_append_right this, List.getElem?_replicate]
+      have h1 : j - r.length < n - r.length := by omega
+      simp [h1, List.getElem?_eq_none this]
+  · simp only [hs, if_false]
+    have : j < r.length := by omega
+    simp [List.getD_eq_getElem?_getD, this]
+
+/-- the raw columns handed to the column parsers: none without value rows -/
+def Spec.rawColumns (rows0 : List Row) (n : Nat) : List (List Cell) :=
+  if rows0.isEmpty then [] else (List.range n).map (Spec.columnCells rows0)
+
+theorem transposeN_padRow (rows : List Row) (n : Nat) :
+    (if (rows.map (padRow n)).isEmpty then [] else transposeN (rows.map (padRow n)) n) = Spec.rawColumns rows n := by
+  unfold Spec.rawColumns transposeN Spec.columnCells
+  cases rows with
+  | nil => rfl
+  | cons r rs =>
+    simp only [List.map_cons, List.isEmpty_cons, Bool.false_eq_true, if_false]
+    apply List.map_congr_left
+    intro j hj
+    have hj' : j < n := List.mem_range.1 hj
+    simp [getD0_padRow n _ j hj']
+
+/-! ## 5. the closed form of the fixer-dependent part of the reader -/
+
+namespace Spec
+/-- errors a layout causes: names already taken + short rows -/
+def errorsOf (L : Layout) : Nat :=
+  takenCount [] L.names0 (repairedNames L.names0) + shortCount L.rows0 L.names0.length
+/-- warnings a layout causes: illegal cells of the parsed columns, filler cells included -/
+def warningsOf (ext : Ext) (L : Layout) : Nat :=
+  illegalTotal ext L.units (rawColumns L.rows0 L.names0.length)
+/-- the messages, in the order the reader meets the defects: duplicate names, short rows, illegal cells -/
+def msgsOf (ext : Ext) (L : Layout) : List Msg :=
+  takenMsgs [] L.names0 (repairedNames L.names0) 0 ++ shortMsgs L.names0.length L.rows0 0 ++
+    illegalMsgs ext L.units (rawColumns L.rows0 L.names0.length)
+/-- the table a layout yields, given only the fixer's replacement values -/
+def tableOf (ext : Ext) (cfg : FixCfg) (L : Layout) : Except PyExc Precursor :=
+  (typeColumns ext cfg L.units (rawColumns L.rows0 L.names0.length)).map (fun parsed =>
+    ⟨L.name, L.transposed, L.destinations, repairedNames L.names0, L.units,
+     parsed ++ List.replicate (L.names0.length - parsed.length) ColVals.raw⟩)
+end Spec
+
+/-- **closed form of `finish`** (duplicate names, short rows, column parsing, `fixer.report()`): the table is a
+    function of the layout and the replacement values; the fixer grows by exactly the defects of the layout; the
+    read fails in `report()` iff the counters are positive and `stop_on_errors` is set. -/
+theorem finish_closed (ext : Ext) (L : Layout) (f0 : Fixer) :
+    finish ext L f0 =
+      match Spec.tableOf ext f0.cfg L with
+      | .error e => .error e
+      | .ok p =>
+        if (bump f0 (Spec.errorsOf L) (Spec.warningsOf ext L) (Spec.msgsOf ext L)).fixes > 0 ∧
+            f0.cfg.stopOnErrors = true
+        then .error .valueError
+        else .ok (p, bump f0 (Spec.errorsOf L) (Spec.warningsOf ext L) (Spec.msgsOf ext L)) := by
+  unfold finish Spec.tableOf Spec.errorsOf Spec.warningsOf Spec.msgsOf
+  simp only [fixDuplicates_closed, fixShortRows_closed, transposeN_padRow, parseColumns_closed, bump_cfg,
+    bump_bump, repairedNames, renameFrom_length, bind, Except.bind, Except.map]
+  cases Spec.typeColumns ext f0.cfg L.units (Spec.rawColumns L.rows0 L.names0.length) with
+  | error e => rfl
+  | ok parsed =>
+    simp only [Nat.add_zero, Nat.zero_add, List.append_assoc, pure, Except.pure, throw_eq, Bool.and_eq_true,
+      decide_eq_true_eq, bump_cfg]
+
+/-! ## 6. counters and messages -/
+
+theorem bump_fixes (f : Fixer) (e w : Nat) (m : List Msg) : (bump f e w m).fixes = f.fixes + e + w := by
+  simp [bump, Fixer.fixes]; omega
+
+/-- **counts**: after a read that did not raise, the fixer's error counter grew by the number of names already
+    taken plus the number of short rows, its warning counter by the number of illegal cells of the parsed columns
+    (a filler cell counts exactly when it is illegal for its column), and the messages by the matching entries;
+    the configuration is untouched. -/
+theorem counts (ext : Ext) (L : Layout) (f0 : Fixer) (p : Precursor) (f3 : Fixer)
+    (h : finish ext L f0 = .ok (p, f3)) :
+    f3.cfg = f0.cfg ∧
+    f3.errors = f0.errors + Spec.errorsOf L ∧
+    f3.warnings = f0.warnings + Spec.warningsOf ext L ∧
+    f3.fixes = f0.fixes + Spec.errorsOf L + Spec.warningsOf ext L ∧
+    f3.msgs = f0.msgs ++ Spec.msgsOf ext L := by
+  rw [finish_closed] at h
+  cases ht : Spec.tableOf ext f0.cfg L with
+  | error e => rw [ht] at h; cases h
+  | ok q =>
+    rw [ht] at h
+    simp only [] at h
+    split at h
+    · cases h
+    · cases h
+      exact ⟨rfl, rfl, rfl, bump_fixes _ _ _ _, rfl⟩
+
+theorem takenMsgs_length (seen : List Str) (ns os : List Str) (i : Nat) :
+    (Spec.takenMsgs seen ns os i).length = Spec.takenCount seen ns os := by
+  induction ns generalizing seen os i with
+  | nil => simp [Spec.takenMsgs, Spec.takenCount]
+  | cons n ns ih =>
+    cases os with
+    | nil => simp [Spec.takenMsgs, Spec.takenCount]
+    | cons o os =>
+      simp only [Spec.takenMsgs, Spec.takenCount, List.length_append, ih]
+      split <;> simp
+
+theorem shortMsgs_length (n : Nat) (rows : List Row) (i : Nat) :
+    (Spec.shortMsgs n rows i).length = Spec.shortCount rows n := by
+  induction rows generalizing i with
+  | nil => simp [Spec.shortMsgs, Spec.shortCount]
+  | cons r rs ih =>
+    simp only [Spec.shortMsgs, Spec.shortCount, List.length_append, List.countP_cons] at *
+    rw [ih]
+    split <;> simp [Nat.add_comm]
+
+theorem illegalMsgs_length (ext : Ext) (us : List Str) (cols : List (List Cell)) :
+    (Spec.illegalMsgs ext us cols).length = Spec.illegalTotal ext us cols := by
+  induction us generalizing cols with
+  | nil => simp [Spec.illegalMsgs, Spec.illegalTotal]
+  | cons u us ih =>
+    cases cols with
+    | nil => simp [Spec.illegalMsgs, Spec.illegalTotal]
+    | cons c cs => simp [Spec.illegalMsgs, Spec.illegalTotal, ih]
+
+/-- **one message per counted defect** -/
+theorem msgs_one_per_fix (ext : Ext) (L : Layout) :
+    (Spec.msgsOf ext L).length = Spec.errorsOf L + Spec.warningsOf ext L := by
+  simp [Spec.msgsOf, Spec.errorsOf, Spec.warningsOf, takenMsgs_length, shortMsgs_length, illegalMsgs_length,
+    Nat.add_assoc]
+
+/-- every short row is named by its index -/
+theorem shortMsgs_names (n : Nat) (rows : List Row) (k i : Nat) (r : Row)
+    (hr : rows[i]? = some r) (hs : r.length < n) : Msg.missingRow (k + i) ∈ Spec.shortMsgs n rows k := by
+  induction rows generalizing k i with
+  | nil => simp at hr
+  | cons r0 rs ih =>
+    cases i with
+    | zero =>
+      simp at hr; subst hr
+      simp [Spec.shortMsgs, Spec.isShort, hs]
+    | succ i =>
+      simp at hr
+      have := ih (k + 1) i hr
+      simp only [Spec.shortMsgs, List.mem_append]
+      right
+      have e : k + 1 + i = k + (i + 1) := by omega
+      rw [← e]; exact this
+
+/-- every name that was already taken is named with its position -/
+theorem takenMsgs_names (seen : List Str) (ns os : List Str) (k i : Nat) (n : Str)
+    (hlen : ns.length = os.length) (hn : ns[i]? = some n) (ht : n ∈ seen ++ os.take i) :
+    Msg.dup n (k + i) ∈ Spec.takenMsgs seen ns os k := by
+  induction ns generalizing seen os k i with
+  | nil => simp at hn
+  | cons n0 ns ih =>
+    cases os with
+    | nil => simp at hlen
+    | cons o os =>
+      cases i with
+      | zero =>
+        simp at hn; subst hn
+        simp at ht
+        simp [Spec.takenMsgs, ht]
+      | succ i =>
+        simp at hn hlen
+        have ht' : n ∈ (seen ++ [o]) ++ os.take i := by simpa [List.append_assoc] using ht
+        have := ih (seen ++ [o]) os (k + 1) i hlen hn ht'
+        simp only [Spec.takenMsgs, List.mem_append]
+        right
+        have e : k + 1 + i = k + (i + 1) := by omega
+        rw [← e]; exact this
+
+/-- **a strict read names every structural defect**: the messages of a layout contain the index of every short
+    row and the name and position of every column name that was already taken -/
+theorem msgs_name_defects (ext : Ext) (L : Layout) :
+    (∀ i r, L.rows0[i]? = some r → r.length < L.names0.length → Msg.missingRow i ∈ Spec.msgsOf ext L) ∧
+    (∀ i n, L.names0[i]? = some n → n ∈ (repairedNames L.names0).take i → Msg.dup n i ∈ Spec.msgsOf ext L) := by
+  constructor
+  · intro i r hr hs
+    have := shortMsgs_names L.names0.length L.rows0 0 i r hr hs
+    simp only [Spec.msgsOf, List.mem_append]
+    left; right; simpa using this
+  · intro i n hn ht
+    have := takenMsgs_names [] L.names0 (repairedNames L.names0) 0 i n
+      (by simp [repairedNames, renameFrom_length]) hn (by simpa using ht)
+    simp only [Spec.msgsOf, List.mem_append]
+    left; left; simpa using this
+
+/-- **at least one fix per short row** -/
+theorem short_rows_counted (ext : Ext) (L : Layout) (f0 : Fixer) (p : Precursor) (f3 : Fixer)
+    (h : finish ext L f0 = .ok (p, f3)) :
+    f0.fixes + Spec.shortCount L.rows0 L.names0.length ≤ f3.fixes := by
+  have := (counts ext L f0 p f3 h).2.2.2.1
+  unfold Spec.errorsOf at this
+  omega
+
+/-! ## 7. shape and values of a lenient read -/
+
+namespace Spec
+
+/-- one parsed value -/
+inductive Val
+  | text (s : Str) | onoff (b : Bool) | num (tok : Str) | dt (tok : Str)
+  deriving DecidableEq, Repr
+
+/-- the defect-free parse of one raw cell under unit `u`; `none` = the cell has no value of that type -/
+def legalValue (ext : Ext) (u : Str) (c : Cell) : Option Val :=
+  if u = uText then some (.text c.pyStr)
+  else if u = uOnoff then (C02.Spec.onoff c).map .onoff
+  else if u = uDatetime then (match dtCell ext c with | .ok t => some (.dt t) | _ => none)
+  else (floatCell ext c).map .num
+
+/-- what the fixer puts in place of an illegal cell -/
+def replacement (cfg : FixCfg) (u : Str) : Val :=
+  if u = uOnoff then .onoff cfg.repOnoff else if u = uDatetime then .dt cfg.repDt else .num cfg.repFloat
+
+end Spec
+
+/-- value `i` of a parsed column -/
+def colGet : ColVals → Nat → Option Spec.Val
+  | .text xs, i => xs[i]?.map .text
+  | .onoff xs, i => xs[i]?.map .onoff
+  | .num xs, i => xs[i]?.map .num
+  | .dt xs, i => xs[i]?.map .dt
+  | .raw, _ => none
+
+theorem dtValues_cellwise (ext : Ext) (rep : Str) (cells : List Cell) (vs : List Str)
+    (h : dtValues ext rep cells = .ok vs) :
+    vs = cells.map (fun c => match dtCell ext c with | .ok t => t | _ => rep) ∧
+    ∀ c ∈ cells, (∃ t, dtCell ext c = .ok t) ∨ dtCell ext c = .fix := by
+  induction cells generalizing vs with
+  | nil => simp [dtValues] at h; subst h; simp
+  | cons c cs ih =>
+    unfold dtValues at h
+    cases hc : dtCell ext c with
+    | ok t =>
+      simp only [hc] at h
+      cases hr : dtValues ext rep cs with
+      | error e => simp [hr, Except.map] at h
+      | ok r =>
+        simp [hr, Except.map] at h
+        subst h
+        have := ih r hr
+        refine ⟨by simp [hc, this.1], ?_⟩
+        intro d hd
+        rcases List.mem_cons.1 hd with rfl | hd
+        · exact Or.inl ⟨t, hc⟩
+        · exact this.2 d hd
+    | fix =>
+      simp only [hc] at h
+      cases hr : dtValues ext rep cs with
+      | error e => simp [hr, Except.map] at h
+      | ok r =>
+        simp [hr, Except.map] at h
+        subst h
+        have := ih r hr
+        refine ⟨by simp [hc, this.1], ?_⟩
+        intro d hd
+        rcases List.mem_cons.1 hd with rfl | hd
+        · exact Or.inr hc
+        · exact this.2 d hd
+    | raiseValue => simp [hc] at h
+    | raises n => simp [hc] at h
+
+/-- **cell-wise typing**: when a column parses, it is as long as its raw column; value `i` is the defect-free
+    parse of raw cell `i` where that exists and the fixer's replacement otherwise; and "has no defect-free
+    parse" is exactly "illegal" (what the warning counter counts) -/
+theorem typeColumn_cellwise (ext : Ext) (cfg : FixCfg) (u : Str) (cells : List Cell) (v : ColVals)
+    (h : C02.Spec.typeColumn ext cfg u cells = .ok v) :
+    v.length = cells.length ∧
+    ∀ i c, cells[i]? = some c →
+      colGet v i = some ((Spec.legalValue ext u c).getD (Spec.replacement cfg u)) ∧
+      (Spec.legalValue ext u c).isNone = Spec.illegal ext u c := by
+  unfold C02.Spec.typeColumn at h
+  unfold Spec.legalValue Spec.replacement Spec.illegal
+  unfold uText uOnoff uDatetime at *
+  generalize "text".toList = T at *
+  generalize "onoff".toList = O at *
+  generalize "datetime".toList = D at *
+  by_cases h1 : u = T
+  · subst h1
+    simp at h; subst h
+    simp [ColVals.length, colGet]
+    intro i c hc; simp [hc]
+  · by_cases h2 : u = O
+    · subst h2
+      simp [h1] at h; subst h
+      simp [ColVals.length, colGet, h1]
+      intro i c hc
+      simp [hc]
+    · by_cases h3 : u = D
+      · subst h3
+        simp only [h1, h2, if_false, if_true] at h
+        cases hr : dtValues ext cfg.repDt cells with
+        | error e => simp [hr, Except.map] at h
+        | ok vs =>
+          simp [hr, Except.map] at h; subst h
+          have hv := dtValues_cellwise ext cfg.repDt cells vs hr
+          refine ⟨by simp [ColVals.length, hv.1], ?_⟩
+          intro i c hc
+          have hmem : c ∈ cells := List.mem_of_getElem? hc
+          simp only [colGet, hv.1, List.getElem?_map, hc, h1, h2, if_false, if_true, Option.map_some, dtIsFix]
+          rcases hv.2 c hmem with ⟨t, ht⟩ | hf
+          · simp [ht]
+          · simp [hf]
+      · simp [h1, h2, h3] at h; subst h
+        simp [ColVals.length, colGet, h1, h2, h3]
+        intro i c hc
+        simp [hc]
+
+theorem typeColumns_index (ext : Ext) (cfg : FixCfg) (us : List Str) (cols : List (List Cell)) (parsed : List ColVals)
+    (h : Spec.typeColumns ext cfg us cols = .ok parsed) :
+    parsed.length = min us.length cols.length ∧
+    ∀ (j : Nat) (u : Str) (c : List Cell), us[j]? = some u → cols[j]? = some c →
+      ∃ v, parsed[j]? = some v ∧ C02.Spec.typeColumn ext cfg u c = .ok v := by
+  induction us generalizing cols parsed with
+  | nil => simp [Spec.typeColumns] at h; subst h; simp
+  | cons u0 us ih =>
+    cases cols with
+    | nil => simp [Spec.typeColumns] at h; subst h; simp
+    | cons c0 cs =>
+      simp only [Spec.typeColumns] at h
+      cases h1 : C02.Spec.typeColumn ext cfg u0 c0 with
+      | error e => simp [h1] at h
+      | ok v0 =>
+        simp only [h1] at h
+        cases h2 : Spec.typeColumns ext cfg us cs with
+        | error e => simp [h2, Except.map] at h
+        | ok vs =>
+          simp [h2, Except.map] at h; subst h
+          have := ih cs vs h2
+          refine ⟨by simp [this.1], ?_⟩
+          intro j u c hu hc
+          cases j with
+          | zero => simp at hu hc; subst hu; subst hc; exact ⟨v0, by simp, h1⟩
+          | succ j => simp at hu hc; simpa using this.2 j u c hu hc
+
+theorem rawColumns_length (rows0 : List Row) (n : Nat) : (Spec.rawColumns rows0 n).length ≤ n := by
+  unfold Spec.rawColumns; split <;> simp
+
+theorem rawColumns_get (rows0 : List Row) (n j : Nat) (hne : rows0 ≠ []) (hj : j < n) :
+    (Spec.rawColumns rows0 n)[j]? = some (Spec.columnCells rows0 j) := by
+  unfold Spec.rawColumns
+  have : rows0.isEmpty = false := by cases rows0 <;> simp_all
+  simp [this, hj]
+
+/-- **the table of a lenient read is a function of the layout and the replacement values only** (never of the
+    fixer's counters or messages): whatever was repaired before, the same layout gives the same table -/
+theorem lenient_values (ext : Ext) (L : Layout) (f0 : Fixer) (p : Precursor) (f3 : Fixer)
+    (h : finish ext L f0 = .ok (p, f3)) : Spec.tableOf ext f0.cfg L = .ok p := by
+  rw [finish_closed] at h
+  cases ht : Spec.tableOf ext f0.cfg L with
+  | error e => rw [ht] at h; cases h
+  | ok q =>
+    rw [ht] at h
+    simp only [] at h
+    split at h
+    · cases h
+    · cases h; rfl
+
+/-- a lenient fixer never fails in `report()`: the read succeeds whenever the columns can be typed at all -/
+theorem lenient_succeeds (ext : Ext) (L : Layout) (f0 : Fixer) (hl : f0.cfg.stopOnErrors = false) :
+    finish ext L f0 = (Spec.tableOf ext f0.cfg L).map (fun p =>
+      (p, bump f0 (Spec.errorsOf L) (Spec.warningsOf ext L) (Spec.msgsOf ext L))) := by
+  rw [finish_closed]
+  cases Spec.tableOf ext f0.cfg L <;> simp [hl, Except.map]
+
+/-- **full shape**: as many names as the header has, one column per name; every column that has a unit is as long
+    as there are value rows (the remaining ones are the empty placeholder, which `_make_table` then rejects) -/
+theorem lenient_shape (ext : Ext) (L : Layout) (f0 : Fixer) (p : Precursor) (f3 : Fixer)
+    (h : finish ext L f0 = .ok (p, f3)) :
+    p.names.length = L.names0.length ∧ p.columns.length = L.names0.length ∧ p.units = L.units ∧
+    (L.rows0 ≠ [] → ∀ j, j < L.units.length → j < L.names0.length →
+      ∃ col, p.columns[j]? = some col ∧ col.length = L.rows0.length) := by
+  have ht := lenient_values ext L f0 p f3 h
+  unfold Spec.tableOf at ht
+  cases hp : Spec.typeColumns ext f0.cfg L.units (Spec.rawColumns L.rows0 L.names0.length) with
+  | error e => simp [hp, Except.map] at ht
+  | ok parsed =>
+    simp [hp, Except.map] at ht
+    subst ht
+    have hi := typeColumns_index ext f0.cfg _ _ parsed hp
+    have hl := rawColumns_length L.rows0 L.names0.length
+    refine ⟨by simp [repairedNames, renameFrom_length], ?_, rfl, ?_⟩
+    · simp only [List.length_append, List.length_replicate]
+      have : parsed.length ≤ L.names0.length := by rw [hi.1]; omega
+      omega
+    · intro hne j hju hjn
+      have hu : L.units[j]? = some L.units[j] := by simp [hju]
+      obtain ⟨v, hv, htc⟩ := hi.2 j _ _ hu (rawColumns_get L.rows0 _ j hne hjn)
+      have hlen := (typeColumn_cellwise ext f0.cfg _ _ v htc).1
+      refine ⟨v, ?_, by simpa [Spec.columnCells] using hlen⟩
+      have hjp : j < parsed.length := by
+        by_cases hjp : j < parsed.length
+        · exact hjp
+        · simp [List.getElem?_eq_none (Nat.le_of_not_lt hjp)] at hv
+      simp [List.getElem?_append_left hjp, hv]
+
+/-- **every cell of a lenient read**: the value at row `i` of column `j` is the defect-free parse of the raw cell
+    (the row's own cell, or the filler text where the row was cut short) if it has one, and the fixer's
+    replacement otherwise; it has none exactly when the cell is illegal for the unit -/
+theorem lenient_cell (ext : Ext) (L : Layout) (f0 : Fixer) (p : Precursor) (f3 : Fixer)
+    (h : finish ext L f0 = .ok (p, f3)) (j i : Nat) (u : Str) (r : Row)
+    (hu : L.units[j]? = some u) (hjn : j < L.names0.length) (hr : L.rows0[i]? = some r) :
+    ∃ col, p.columns[j]? = some col ∧
+      colGet col i = some ((Spec.legalValue ext u (r.getD j Spec.filler)).getD (Spec.replacement f0.cfg u)) ∧
+      (Spec.legalValue ext u (r.getD j Spec.filler)).isNone = Spec.illegal ext u (r.getD j Spec.filler) := by
+  have ht := lenient_values ext L f0 p f3 h
+  unfold Spec.tableOf at ht
+  cases hp : Spec.typeColumns ext f0.cfg L.units (Spec.rawColumns L.rows0 L.names0.length) with
+  | error e => simp [hp, Except.map] at ht
+  | ok parsed =>
+    simp [hp, Except.map] at ht
+    subst ht
+    have hi := typeColumns_index ext f0.cfg _ _ parsed hp
+    have hne : L.rows0 ≠ [] := by intro e; simp [e] at hr
+    obtain ⟨v, hv, htc⟩ := hi.2 j _ _ hu (rawColumns_get L.rows0 _ j hne hjn)
+    have hc := (typeColumn_cellwise ext f0.cfg _ _ v htc).2 i (r.getD j Spec.filler)
+      (by simp [Spec.columnCells, hr])
+    have hjp : j < parsed.length := by
+      by_cases hjp : j < parsed.length
+      · exact hjp
+      · simp [List.getElem?_eq_none (Nat.le_of_not_lt hjp)] at hv
+    exact ⟨v, by simp [List.getElem?_append_left hjp, hv], hc⟩
+
+/-- a legal cell's value does not depend on the fixer at all; an illegal cell holds the replacement -/
+theorem legal_value_kept (ext : Ext) (cfg : FixCfg) (u : Str) (c : Cell) (v : Spec.Val)
+    (h : Spec.legalValue ext u c = some v) : (Spec.legalValue ext u c).getD (Spec.replacement cfg u) = v := by
+  simp [h]
+
+theorem illegal_value_replaced (ext : Ext) (cfg : FixCfg) (u : Str) (c : Cell)
+    (h : Spec.legalValue ext u c = none) :
+    (Spec.legalValue ext u c).getD (Spec.replacement cfg u) = Spec.replacement cfg u := by
+  simp [h]
+
+/-- the stock replacements are False / NaT / NaN -/
+theorem stock_replacements (u : Str) :
+    Spec.replacement FixCfg.lenient u =
+      if u = uOnoff then .onoff false else if u = uDatetime then .dt NaT else .num NaN := rfl
+
+/-- **the filler**: a cut-off cell reads as the text "NaN" in a text column, as a missing number in a numeric
+    column, as NaT in a datetime column — no defect there — and is an illegal cell (replacement, one warning)
+    in an onoff column -/
+theorem filler_values (ext : Ext) (u : Str) :
+    Spec.legalValue ext u Spec.filler =
+      if u = uText then some (.text "NaN".toList)
+      else if u = uOnoff then none
+      else if u = uDatetime then some (.dt NaT)
+      else some (.num NaN) := by
+  have h1 : C02.Spec.onoff Spec.filler = none := by decide
+  have h2 : floatCell ext Spec.filler = some NaN := by
+    have : Gen.missingFloatConvert.contains (normalize "NaN".toList) = true := by decide
+    unfold floatCell Spec.filler
+    simp only [this, if_true]
+  have h3 : dtCell ext Spec.filler = .ok NaT := by
+    have hs : strip "NaN".toList = "NaN".toList := by decide
+    have hm : isMissingMarker "NaN".toList = true := by decide
+    simp only [dtCell, Spec.filler, hs]
+    have : isMissingMarker ['N', 'a', 'N'] = true := hm
+    simp [this]
+  unfold Spec.legalValue
+  simp only [h1, h2, h3]
+  rfl
+
+/-! ## 8. the repaired names are unique -/
+
+/-- candidate `sq` of `fix_duplicate_column_name` -/
+def cand (c : Str) (sq : Nat) : Str := c ++ "_fixed_".toList ++ pad3 sq
+
+def unpad (s : Str) : Nat := s.foldl (fun n c => 10 * n + (c.toNat - 48)) 0
+
+set_option maxRecDepth 100000 in
+theorem unpad_pad3_0 : ∀ n < 200, unpad (pad3 n) = n := by decide
+set_option maxRecDepth 100000 in
+theorem unpad_pad3_1 : ∀ n < 200, unpad (pad3 (n + 200)) = n + 200 := by decide
+set_option maxRecDepth 100000 in
+theorem unpad_pad3_2 : ∀ n < 200, unpad (pad3 (n + 400)) = n + 400 := by decide
+set_option maxRecDepth 100000 in
+theorem unpad_pad3_3 : ∀ n < 200, unpad (pad3 (n + 600)) = n + 600 := by decide
+set_option maxRecDepth 100000 in
+theorem unpad_pad3_4 : ∀ n < 200, unpad (pad3 (n + 800)) = n + 800 := by decide
+
+/-- `f"{sq:03}"` is one-to-one on 0..999 -/
+theorem unpad_pad3 (n : Nat) (h : n < 1000) : unpad (pad3 n) = n := by
+  by_cases h0 : n < 200
+  · exact unpad_pad3_0 n h0
+  · by_cases h1 : n < 400
+    · have := unpad_pad3_1 (n - 200) (by omega); rwa [Nat.sub_add_cancel (by omega)] at this
+    · by_cases h2 : n < 600
+      · have := unpad_pad3_2 (n - 400) (by omega); rwa [Nat.sub_add_cancel (by omega)] at this
+      · by_cases h3 : n < 800
+        · have := unpad_pad3_3 (n - 600) (by omega); rwa [Nat.sub_add_cancel (by omega)] at this
+        · have := unpad_pad3_4 (n - 800) (by omega); rwa [Nat.sub_add_cancel (by omega)] at this
+
+theorem cand_inj (c : Str) (a b : Nat) (ha : a < 1000) (hb : b < 1000) (h : cand c a = cand c b) : a = b := by
+  unfold cand at h
+  have := List.append_cancel_left h
+  rw [← unpad_pad3 a ha, ← unpad_pad3 b hb, this]
+
+theorem freeName_spec (c : Str) (ex : List Str) (sq fuel : Nat) :
+    freeName c ex sq fuel ∉ ex ∨ ∀ k, sq ≤ k → k < sq + fuel → cand c k ∈ ex := by
+  induction fuel generalizing sq with
+  | zero => right; intro k h1 h2; omega
+  | succ fuel ih =>
+    unfold freeName
+    by_cases h : ex.contains (c ++ "_fixed_".toList ++ pad3 sq) = true
+    · simp only [h, if_true]
+      rcases ih (sq + 1) with h' | h'
+      · exact Or.inl h'
+      · right
+        intro k h1 h2
+        by_cases e : k = sq
+        · subst e; exact List.contains_iff_mem.1 h
+        · exact h' k (by omega) (by omega)
+    · simp only [h]
+      left
+      intro hm
+      exact h (List.contains_iff_mem.2 hm)
+
+theorem cand_pigeonhole (c : Str) (ex : List Str) (N : Nat) (hN : N ≤ 1000)
+    (h' : ∀ k, k < N → cand c k ∈ ex) : N ≤ ex.length := by
+  have hnd : ((List.range N).map (cand c)).Nodup := by
+    rw [List.nodup_iff_pairwise_ne, List.pairwise_map]
+    have := @List.pairwise_lt_range N
+    rw [List.pairwise_iff_getElem] at this ⊢
+    intro i j hi hj hij e
+    have hi' : (List.range N)[i] < N := List.mem_range.1 (List.getElem_mem _)
+    have hj' : (List.range N)[j] < N := List.mem_range.1 (List.getElem_mem _)
+    have := this i j hi hj hij
+    have := cand_inj c _ _ (by omega) (by omega) e
+    omega
+  have hsub : (List.range N).map (cand c) ⊆ ex := by
+    intro x hx
+    obtain ⟨k, hk, rfl⟩ := List.mem_map.1 hx
+    exact h' k (List.mem_range.1 hk)
+  have := hnd.length_le_of_subset hsub
+  simpa using this
+
+/-- with fewer than 1000 names so far, `fix_duplicate_column_name` returns a name not among them -/
+theorem freeName_fresh (c : Str) (ex : List Str) (h : ex.length < 1000) : freeName c ex 0 1000 ∉ ex := by
+  rcases freeName_spec c ex 0 1000 with h' | h'
+  · exact h'
+  · exfalso
+    have := cand_pigeonhole c ex 1000 (Nat.le_refl _) (fun k hk => h' k (Nat.zero_le _) (by omega))
+    omega
+
+theorem renameFrom_nodup (seen ns : List Str) (hs : seen.Nodup) (hl : seen.length + ns.length ≤ 1000) :
+    (seen ++ renameFrom seen ns).Nodup := by
+  induction ns generalizing seen with
+  | nil => simpa [renameFrom] using hs
+  | cons n ns ih =>
+    simp only [renameFrom]
+    have hfresh : (if seen.contains n then freeName n seen 0 1000 else n) ∉ seen := by
+      by_cases hc : seen.contains n = true
+      · simp only [hc, if_true]
+        exact freeName_fresh n seen (by simp at hl; omega)
+      · simp only [hc]
+        intro hm; exact hc (List.contains_iff_mem.2 hm)
+    have hs' : (seen ++ [if seen.contains n then freeName n seen 0 1000 else n]).Nodup := by
+      rw [List.nodup_append]
+      refine ⟨hs, by simp, ?_⟩
+      intro a ha b hb
+      have hb' := List.mem_singleton.1 hb
+      intro e
+      rw [hb'] at e
+      rw [e] at ha
+      exact hfresh ha
+    have := ih _ hs' (by simp at hl ⊢; omega)
+    simpa [List.append_assoc] using this
+
+/-- **names unique**: after `_fix_duplicate_column_names` no two columns have the same name (tables of at most
+    1000 columns — beyond that the code falls back to one literal name) -/
+theorem names_unique (names0 : List Str) (h : names0.length ≤ 1000) : (repairedNames names0).Nodup := by
+  have := renameFrom_nodup [] names0 (by simp) (by simpa using h)
+  simpa [repairedNames] using this
+
+theorem renameFrom_kept (seen ns : List Str) (i : Nat) (n : Str) (hn : ns[i]? = some n) :
+    (n ∉ seen ++ (renameFrom seen ns).take i → (renameFrom seen ns)[i]? = some n) := by
+  induction ns generalizing seen i with
+  | nil => simp at hn
+  | cons n0 ns ih =>
+    cases i with
+    | zero =>
+      simp at hn; subst hn
+      intro h
+      have hc : seen.contains n0 = false := by
+        cases hh : seen.contains n0 with
+        | false => rfl
+        | true => exact absurd (List.contains_iff_mem.1 hh) (by simpa using h)
+      have hn' : n0 ∉ seen := by simpa using h
+      simp [renameFrom, hc, hn']
+    | succ i =>
+      simp at hn
+      intro h
+      simp only [renameFrom, List.getElem?_cons_succ]
+      apply ih _ i hn
+      simpa [renameFrom, List.append_assoc] using h
+
+/-- a name that was not yet taken is kept as it is -/
+theorem names_kept (names0 : List Str) (i : Nat) (n : Str) (hn : names0[i]? = some n)
+    (h : n ∉ (repairedNames names0).take i) : (repairedNames names0)[i]? = some n := by
+  have := renameFrom_kept [] names0 i n hn
+  simpa [repairedNames] using this (by simpa [repairedNames] using h)
+
+theorem renameFrom_of_nodup (seen ns : List Str) (h : (seen ++ ns).Nodup) :
+    renameFrom seen ns = ns ∧ Spec.takenCount seen ns ns = 0 := by
+  induction ns generalizing seen with
+  | nil => simp [renameFrom, Spec.takenCount]
+  | cons n ns ih =>
+    have hn : n ∉ seen := by
+      intro hm
+      rw [List.nodup_append] at h
+      exact h.2.2 n hm n (by simp) rfl
+    have hc : seen.contains n = false := by
+      cases hh : seen.contains n with
+      | false => rfl
+      | true => exact absurd (List.contains_iff_mem.1 hh) hn
+    have h' : ((seen ++ [n]) ++ ns).Nodup := by simpa [List.append_assoc] using h
+    have := ih (seen ++ [n]) h'
+    simp [renameFrom, hc, this.1, Spec.takenCount, hn, this.2]
+
+/-- pairwise different names are all kept and nothing is counted -/
+theorem unique_names_untouched (names0 : List Str) (h : names0.Nodup) :
+    repairedNames names0 = names0 ∧ Spec.takenCount [] names0 (repairedNames names0) = 0 := by
+  have := renameFrom_of_nodup [] names0 (by simpa using h)
+  simp [repairedNames, this.1, this.2]
+
+/-! ## 9. strict read = lenient read + "fail iff something was counted" -/
+
+/-- the same fixer with `stop_on_errors` set / cleared -/
+def setStop (b : Bool) (f : Fixer) : Fixer := { f with cfg := { f.cfg with stopOnErrors := b } }
+
+theorem typeColumn_stop_irrelevant (ext : Ext) (cfg : FixCfg) (b : Bool) (u : Str) (cells : List Cell) :
+    C02.Spec.typeColumn ext { cfg with stopOnErrors := b } u cells = C02.Spec.typeColumn ext cfg u cells := rfl
+
+theorem typeColumns_stop_irrelevant (ext : Ext) (cfg : FixCfg) (b : Bool) (us : List Str) (cols : List (List Cell)) :
+    Spec.typeColumns ext { cfg with stopOnErrors := b } us cols = Spec.typeColumns ext cfg us cols := by
+  induction us generalizing cols with
+  | nil => rfl
+  | cons u us ih =>
+    cases cols with
+    | nil => rfl
+    | cons c cs => simp only [Spec.typeColumns, typeColumn_stop_irrelevant, ih]
+
+theorem tableOf_stop_irrelevant (ext : Ext) (cfg : FixCfg) (b : Bool) (L : Layout) :
+    Spec.tableOf ext { cfg with stopOnErrors := b } L = Spec.tableOf ext cfg L := by
+  simp only [Spec.tableOf, typeColumns_stop_irrelevant]
+
+/-- **strict vs lenient**: a strict read of a layout, starting from clean counters, is the lenient read of the
+    same layout (same replacement values) followed by: fail with ValueError iff anything was counted. So a strict
+    read fails in `report()` exactly when the layout has a defect, and then its message (section 6) has one entry
+    per defect; when it succeeds the table is the lenient one and nothing was repaired. -/
+theorem strict_eq_lenient (ext : Ext) (L : Layout) (f0 : Fixer) (h0 : f0.fixes = 0) :
+    finish ext L (setStop true f0) =
+      match finish ext L (setStop false f0) with
+      | .error e => .error e
+      | .ok (p, f3) => if f3.fixes > 0 then .error .valueError else .ok (p, setStop true f3) := by
+  rw [finish_closed, finish_closed]
+  simp only [setStop, tableOf_stop_irrelevant, bump_fixes]
+  cases Spec.tableOf ext f0.cfg L with
+  | error e => rfl
+  | ok p =>
+    have e0 : ({ f0 with cfg := { f0.cfg with stopOnErrors := true } } : Fixer).fixes = 0 := h0
+    have e1 : ({ f0 with cfg := { f0.cfg with stopOnErrors := false } } : Fixer).fixes = 0 := h0
+    simp only [e0, e1, and_true, Bool.false_eq_true, and_false, if_false, bump_fixes]
+    split <;> rfl
+
+/-- **strict fails iff defect**: with `stop_on_errors` and clean counters the read succeeds iff the columns can be
+    typed at all and the layout has no duplicate name, no short row and no illegal cell -/
+theorem strict_fails_iff_defect (ext : Ext) (L : Layout) (f0 : Fixer) (hs : f0.cfg.stopOnErrors = true)
+    (h0 : f0.fixes = 0) :
+    (∃ r, finish ext L f0 = .ok r) ↔
+      (∃ p, Spec.tableOf ext f0.cfg L = .ok p) ∧ Spec.errorsOf L + Spec.warningsOf ext L = 0 := by
+  rw [finish_closed]
+  cases Spec.tableOf ext f0.cfg L with
+  | error e => simp
+  | ok p =>
+    simp only [bump_fixes, h0, hs, and_true, Nat.zero_add]
+    by_cases hz : Spec.errorsOf L + Spec.warningsOf ext L > 0
+    · simp [hz]; omega
+    · simp [hz]; omega
+
+/-- **strict names all**: when the strict read fails in `report()` the messages it reports are those of the
+    layout: one per counted defect (`msgs_one_per_fix`), naming every short row and every taken name
+    (`msgs_name_defects`); a failure is either that or a column that cannot be typed at all -/
+theorem strict_names_all (ext : Ext) (L : Layout) (f0 : Fixer) (hs : f0.cfg.stopOnErrors = true)
+    (h0 : f0.fixes = 0) (e : PyExc) (h : finish ext L f0 = .error e) :
+    Spec.tableOf ext f0.cfg L = .error e ∨
+    (e = .valueError ∧ 0 < Spec.errorsOf L + Spec.warningsOf ext L ∧
+      (Spec.msgsOf ext L).length = Spec.errorsOf L + Spec.warningsOf ext L) := by
+  rw [finish_closed] at h
+  cases ht : Spec.tableOf ext f0.cfg L with
+  | error e' => rw [ht] at h; simp at h; left; rw [h]
+  | ok p =>
+    rw [ht] at h
+    simp only [bump_fixes, h0, hs, and_true, Nat.zero_add] at h
+    right
+    split at h
+    · cases h
+      exact ⟨rfl, by omega, msgs_one_per_fix ext L⟩
+    · cases h
+
+/-! ## 10. isolation: the verdict on a block depends on the fixer's configuration only -/
+
+/-- how a handler grows the fixer it is given -/
+structure Growth where
+  e : Nat
+  w : Nat
+  m : List Msg
+
+def grow (f : Fixer) (g : Growth) : Fixer := bump f g.e g.w g.m
+
+@[simp] theorem grow_cfg (f : Fixer) (g : Growth) : (grow f g).cfg = f.cfg := rfl
+
+/-- `finish` as a function of the fixer's configuration and its current number of fixes -/
+def finishR (ext : Ext) (fcfg : FixCfg) (n : Nat) (L : Layout) : Except PyExc (Precursor × Growth) :=
+  match Spec.tableOf ext fcfg L with
+  | .error e => .error e
+  | .ok p =>
+    if n + Spec.errorsOf L + Spec.warningsOf ext L > 0 ∧ fcfg.stopOnErrors = true then .error .valueError
+    else .ok (p, ⟨Spec.errorsOf L, Spec.warningsOf ext L, Spec.msgsOf ext L⟩)
+
+theorem finish_R (ext : Ext) (L : Layout) (f : Fixer) :
+    finish ext L f = (finishR ext f.cfg f.fixes L).map (fun r => (r.1, grow f r.2)) := by
+  rw [finish_closed]
+  unfold finishR
+  cases Spec.tableOf ext f.cfg L with
+  | error e => rfl
+  | ok p =>
+    simp only [bump_fixes]
+    split <;> simp [Except.map, grow, *]
+
+/-- a datetime column whose timestamps carry different UTC offsets (pandas keeps it as an object column) -/
+def mixedDt : ColVals → Bool
+  | .dt xs => !dtHomogeneous xs
+  | _ => false
+
+/-- the DataFrame construction checks of `_make_table` on a precursor -/
+def frameCheck (p : Precursor) : Except PyExc Unit :=
+  match p.columns with
+  | [] => .ok ()
+  | c :: cs =>
+    if !cs.all (fun d => d.length = c.length) then .error .valueError
+    else if c.length > 0 && p.columns.any mixedDt then .error .columnUnit
+    else .ok ()
+
+theorem makeTable_eq (ext : Ext) (cells : List Row) (f0 : Fixer) :
+    makeTable ext cells f0 =
+      (makePrecursor ext cells f0).bind (fun r => (frameCheck r.1).bind (fun _ => .ok r)) := by
+  have hm : ∀ d, makeTable.match_1 (fun _ => Bool) d (fun xs => !dtHomogeneous xs) (fun _ => false) = mixedDt d := by
+    intro d; cases d <;> rfl
+  unfold makeTable
+  simp only [bind]
+  cases makePrecursor ext cells f0 with
+  | error e => rfl
+  | ok r =>
+    obtain ⟨p, f⟩ := r
+    simp only [Except.bind, frameCheck, hm]
+    cases hc : p.columns with
+    | nil => rfl
+    | cons c cs =>
+      simp only []
+      split
+      · rfl
+      · split <;> rfl
+
+def Growth.zero : Growth := ⟨0, 0, []⟩
+
+@[simp] theorem grow_zero (f : Fixer) : grow f Growth.zero = f := by simp [grow, Growth.zero]
+
+/-- a handler as a function of the block, the fixer's configuration and its current number of fixes -/
+def handleR (cfg : Config) (fcfg : FixCfg) (n : Nat) (ty : BT) (cells : List Row) : Except PyExc (BlockVal × Growth) :=
+  match ty with
+  | .metadata => .ok (.metadata (metadataBlock cells), Growth.zero)
+  | .directive => (directive cells).map (fun r => (.directive r.1 r.2, Growth.zero))
+  | .table =>
+    match cfg.form with
+    | .pdtable =>
+      (layout cells).bind fun L => (finishR cfg.ext fcfg n L).bind fun r =>
+        (frameCheck r.1).bind fun _ => .ok (.table r.1, r.2)
+    | .jsondata =>
+      (layout cells).bind fun L => (finishR cfg.ext fcfg n L).bind fun r => .ok (.json r.1, r.2)
+    | .cellgrid => .ok (.grid cells, Growth.zero)
+  | _ => .ok (.grid cells, Growth.zero)
+
+theorem handle_R (cfg : Config) (ty : BT) (cells : List Row) (f : Fixer) :
+    handle cfg ty cells f = (handleR cfg f.cfg f.fixes ty cells).map (fun r => (r.1, grow f r.2)) := by
+  unfold handle handleR
+  cases ty with
+  | metadata => simp [Except.map]
+  | directive =>
+    simp only [bind, Except.bind, Except.map]
+    cases directive cells with
+    | error e => rfl
+    | ok r => obtain ⟨n, ls⟩ := r; simp [pure, Except.pure]
+  | table =>
+    cases cfg.form with
+    | pdtable =>
+      simp only [makeTable_eq, makePrecursor, finish_R, bind, Except.bind, Except.map]
+      cases layout cells with
+      | error e => rfl
+      | ok L =>
+        simp only []
+        cases finishR cfg.ext f.cfg f.fixes L with
+        | error e => rfl
+        | ok r =>
+          simp only []
+          cases frameCheck r.1 <;> simp [pure, Except.pure]
+    | jsondata =>
+      simp only [makePrecursor, finish_R, bind, Except.bind, Except.map]
+      cases layout cells with
+      | error e => rfl
+      | ok L =>
+        simp only []
+        cases finishR cfg.ext f.cfg f.fixes L <;> simp [pure, Except.pure]
+    | cellgrid => simp [Except.map]
+  | template => simp [Except.map]
+  | blank => simp [Except.map]
+
+/-- the verdict on one block — rejected by the filter (`none`), delivered with a value, or failed with an
+    exception class — as a function of the block and the fixer's *configuration* alone -/
+def verdict (cfg : Config) (fcfg : FixCfg) (b : Block Row) : Option (Except PyExc BlockVal) :=
+  if !accepts cfg b.ty b.rows then none else some ((handleR cfg fcfg 0 b.ty b.rows).map (·.1))
+
+/-- what a run delivers, reports and how it ends, block by block from the verdicts -/
+def runV (cfg : Config) (fcfg : FixCfg) : List (Block Row) → List Delivered × List Nat × Ending
+  | [] => ([], [], .exhausted)
+  | b :: bs =>
+    match verdict cfg fcfg b with
+    | none => runV cfg fcfg bs
+    | some (.ok v) => (⟨b.ty, b.first, v⟩ :: (runV cfg fcfg bs).1, (runV cfg fcfg bs).2.1, (runV cfg fcfg bs).2.2)
+    | some (.error e) =>
+      if caught e then
+        match cfg.tracker with
+        | .raising => ([], [b.first], .inputError b.first)
+        | .collecting => ((runV cfg fcfg bs).1, b.first :: (runV cfg fcfg bs).2.1, (runV cfg fcfg bs).2.2)
+      else ([], [], .escaped e)
+
+def view (r : Result) : List Delivered × List Nat × Ending := (r.blocks, r.issues, r.ending)
+
+theorem reset_cfg (f : Fixer) : f.reset.cfg = f.cfg := rfl
+theorem reset_fixes (f : Fixer) : f.reset.fixes = 0 := rfl
+
+/-- `block_output` over a stream is the verdict-by-verdict run: counters are reset before every block, so what is
+    delivered, reported and how the read ends never depends on the counters or messages in the fixer -/
+theorem runBlocks_eq_runV (cfg : Config) (bs : List (Block Row)) (f : Fixer) :
+    view (runBlocks cfg bs f) = runV cfg f.cfg bs ∧ (runBlocks cfg bs f).fixer.cfg = f.cfg := by
+  induction bs generalizing f with
+  | nil => simp [runBlocks, runV, view]
+  | cons b bs ih =>
+    unfold runBlocks runV verdict
+    by_cases ha : accepts cfg b.ty b.rows = true
+    · simp only [ha, Bool.not_true, Bool.false_eq_true, if_false]
+      rw [handle_R, reset_cfg, reset_fixes]
+      cases hh : handleR cfg f.cfg 0 b.ty b.rows with
+      | error e =>
+        simp only [Except.map]
+        by_cases hc : caught e = true
+        · simp only [hc, if_true]
+          cases cfg.tracker with
+          | raising => simp [view, reset_cfg]
+          | collecting =>
+            obtain ⟨h1, h2⟩ := ih f.reset
+            simp only [view, reset_cfg] at h1 h2 ⊢
+            rw [← h1]
+            exact ⟨rfl, h2⟩
+        · simp [hc, view, reset_cfg]
+      | ok r =>
+        simp only [Except.map]
+        obtain ⟨h1, h2⟩ := ih (grow f.reset r.2)
+        simp only [view, grow_cfg, reset_cfg] at h1 h2 ⊢
+        rw [← h1]
+        exact ⟨rfl, h2⟩
+    · simp only [ha, Bool.not_false, if_true]
+      have := ih f.reset
+      simpa [reset_cfg] using this
+
+/-- **isolation**: two fixers with the same configuration — whatever counters and messages earlier blocks left in
+    them — give the same delivered blocks, the same reported issues and the same ending on every stream of
+    blocks. (Messages do accumulate across blocks in the fixer; nothing depends on them.) -/
+theorem isolation (cfg : Config) (bs : List (Block Row)) (f g : Fixer) (h : f.cfg = g.cfg) :
+    view (runBlocks cfg bs f) = view (runBlocks cfg bs g) := by
+  rw [(runBlocks_eq_runV cfg bs f).1, (runBlocks_eq_runV cfg bs g).1, h]
+
+/-- in particular the verdict on the blocks after a prefix `pre` is the verdict they get when read on their own
+    with a fresh fixer of the same configuration -/
+theorem isolation_after_prefix (cfg : Config) (pre bs : List (Block Row)) (f : Fixer) :
+    runV cfg f.cfg bs = view (runBlocks cfg bs ⟨f.cfg, 0, 0, []⟩) ∧
+    runV cfg f.cfg bs = view (runBlocks cfg bs (runBlocks cfg pre f).fixer) := by
+  constructor
+  · rw [(runBlocks_eq_runV cfg bs _).1]
+  · rw [(runBlocks_eq_runV cfg bs _).1, (runBlocks_eq_runV cfg pre f).2]
+
+/-- the fixer's configuration is never changed by reading -/
+theorem config_kept (cfg : Config) (rows : List Row) (f : Fixer) : (parseBlocks cfg rows f).fixer.cfg = f.cfg :=
+  (runBlocks_eq_runV cfg (segment rows) f).2
+
+/-! ## 11. non-vacuity: one table with every kind of defect -/
+
+def exLayout : Layout :=
+  ⟨"t".toList, false, ["all".toList], ["a".toList, "a".toList, "c".toList, "d".toList],
+   ["m".toList, "onoff".toList, "datetime".toList, "text".toList],
+   [[.str "1.5".toList, .str "1".toList, .str "-".toList, .str "x".toList],
+    [.str "xx".toList, .str "maybe".toList],
+    [.str "nan".toList, .str "0".toList, .str "yesterday".toList, .str "".toList]]⟩
+
+/-- lenient stock read: 1 duplicate name + 1 short row = 2 errors; "xx", "maybe", the onoff filler … wait: the
+    filler lands in columns c (datetime: NaT, legal) and d (text), so the illegal cells are "xx", "maybe" and
+    "yesterday" = 3 warnings; names repaired to a, a_fixed_000, c, d; full 4 × 3 shape -/
+example :
+    (finish exampleExt exLayout ⟨FixCfg.lenient, 0, 0, []⟩).toOption.map
+      (fun r => (r.1.names, r.1.columns, r.2.errors, r.2.warnings, r.2.msgs)) =
+    some (["a".toList, "a_fixed_000".toList, "c".toList, "d".toList],
+          [.num ["1.5".toList, NaN, NaN], .onoff [true, false, false], .dt [NaT, NaT, NaT],
+           .text ["x".toList, "NaN".toList, [] ]],
+          2, 3,
+          [.dup "a".toList 1, .missingRow 1, .illegal "float".toList, .illegal "onoff".toList,
+           .illegal "datetime".toList]) := by decide
+
+/-- the strict read of the same layout fails; the strict read of a clean layout succeeds with nothing counted -/
+example : (finish exampleExt exLayout ⟨FixCfg.strict, 0, 0, []⟩).toOption.isNone = true := by decide
+
+example : Spec.errorsOf exLayout = 2 ∧ Spec.warningsOf exampleExt exLayout = 3 := by decide
+
+example : (repairedNames exLayout.names0).Nodup := names_unique _ (by decide)
 
 end Pdt.C13
